@@ -11,13 +11,15 @@ Open Scope Z_scope.
 Definition is_hcd (p : iopc) : bool := match p with IoHCd _ => true | _ => false end.
 
 Definition notif_soon (c : cfg) (s : state) : Prop :=
-  hw c <= total s \/ io_will_notify (io s) = true \/ io_close_notify (io s) (wc s) = true.
+  hw c < total s \/ io_will_notify (io s) = true \/ io_close_notify (io s) (wc s) = true.
 
 Definition WInv4 (c : cfg) (s : state) (p : wpc) : Prop :=
   match p with
-  | WHwEP _ | WHwEN _ => wc s = true
-  | WHwEW _ => wc s = true /\ (closed s = true \/ pulled s = true \/ cov_wc (io s) = true)
-  | WHwEPk _ cap => wc s = true /\ (cap = true -> conn s = true \/ is_hcd (io s) = true)
+  | WHwF _ => conn s = true
+  | WHwEN _ => wc s = true
+  | WHwEP _ => wc s = true /\ conn s = true
+  | WHwEW _ => wc s = true /\ conn s = true /\ (closed s = true \/ pulled s = true \/ cov_wc (io s) = true)
+  | WHwEPk _ cap => wc s = true /\ cap = true /\ (conn s = true \/ is_hcd (io s) = true)
   | WHwL2 _ => conn s = true
   | WHwLP _ => conn s = true /\ hw c < total s
   | WHwLW _ => conn s = true /\ hw c < total s /\
@@ -144,7 +146,7 @@ Proof.
   all: z_hyps; nat_hyps.
   all: intros j q Hj; simpl in Hj.
   all: first [ apply nth_error_upd_inv in Hj; destruct Hj as [[-> ->]|[Hne Hj]]
-             | destruct (Nat.eq_dec j i) as [->|Hne]; [rewrite Hg in Hj; inversion Hj; subst q; exact I|] ].
+             | destruct (Nat.eq_dec j i) as [->|Hne]; [rewrite Hg in Hj; inversion Hj; subst q; simpl in *; first [exact I | exact Hi4]|] ].
   (* the other workers *)
   all: try (try (apply ws_add_task_inv in Hj; destruct Hj as [->|Hj]; [exact I|]);
             first [ apply winv4_nonmain; apply (Hoth eq_refl _ _ Hne Hj)
@@ -157,7 +159,6 @@ Proof.
   all: simpl in Hi4, Hlk, Hmn; unfold notif_soon in *.
   all: try tauto.
   all: try (intuition (try lia; try congruence); fail).
-  simpl. intuition lia.
 Qed.
 
 Lemma inv4_step : forall c s ch s' l,
